@@ -9,6 +9,7 @@ import (
 	"testing"
 	"time"
 
+	"github.com/openziti/storage/ast"
 	"github.com/openziti/storage/boltz"
 	"go.etcd.io/bbolt"
 	"pgregory.net/rapid"
@@ -910,8 +911,13 @@ func runC13Inner(c c13Case) kit.Result {
 			})
 		}
 		if err == nil && diff == "" {
-			// an update replaces the tags and leaves the creation stamp alone
+			// an update replaces the tags and leaves the creation stamp alone; an entity updated with no tags at all
+			// (nil, not an empty map) has none afterwards
 			ent.Tags = tags2.goValue().(map[string]interface{})
+			if len(tags2.M) == 0 && c.System {
+				ent.Tags = nil
+				res.Classes = append(res.Classes, "update-with-nil-tags")
+			}
 			err = db.DB.Update(func(tx *bbolt.Tx) error {
 				b := boltz.GetOrCreatePath(tx, "root", "ent")
 				ent.SetBaseValues(&boltz.PersistContext{Bucket: b, IsCreate: false})
@@ -996,8 +1002,86 @@ func runC13Codec(c c13Case, res kit.Result) kit.Result {
 			res.Err = fmt.Errorf("distinct lists share an encoding: %q and %q -> %x", a, b, encA)
 		}
 		res.Classes = append(res.Classes, "injectivity-pair")
+		if errB == nil && len(encA) < 30000 && len(encB) < 30000 {
+			// the compound keys as entries of a link set (LinkedSetSymbol.AddCompoundLink / RemoveCompoundLink): the two
+			// lists are two entries (one if they are equal) that decode to the lists; removing one leaves the other
+			if err := c13CompoundLinks(a, b); err != nil {
+				res.Err = err
+			}
+			res.Classes = append(res.Classes, "compound-link-entries")
+		}
 	}
 	return res
+}
+
+func c13CompoundLinks(a, b []string) error {
+	db := kit.NewRawDB()
+	defer db.Close()
+	store := boltz.NewBaseStore(boltz.StoreDefinition[boltz.Entity]{EntityType: "as", BasePath: []string{"root"}})
+	store.AddIdSymbol("id", ast.NodeTypeString)
+	groups := &boltz.LinkedSetSymbol{EntitySymbol: store.AddSetSymbol("groups", ast.NodeTypeString)}
+	same := fmt.Sprintf("%q", a) == fmt.Sprintf("%q", b)
+	read := func() (out []string, err error) {
+		err = db.DB.View(func(tx *bbolt.Tx) error {
+			bkt := boltz.Path(tx, "root", "as", "e1", "groups")
+			if bkt == nil {
+				return nil
+			}
+			for cur := bkt.IterateStringList(); cur.IsValid(); cur.Next() {
+				dec, derr := boltz.DecodeStringSlice(cur.Current())
+				if derr != nil {
+					return fmt.Errorf("link entry %x does not decode: %v", cur.Current(), derr)
+				}
+				out = append(out, fmt.Sprintf("%q", dec))
+			}
+			return nil
+		})
+		sort.Strings(out)
+		return
+	}
+	norm := func(lists ...[]string) []string {
+		set := map[string]bool{}
+		for _, l := range lists {
+			if len(l) == 0 {
+				set[fmt.Sprintf("%q", []string(nil))] = true
+			} else {
+				set[fmt.Sprintf("%q", l)] = true
+			}
+		}
+		var out []string
+		for k := range set {
+			out = append(out, k)
+		}
+		sort.Strings(out)
+		return out
+	}
+	if err := db.DB.Update(func(tx *bbolt.Tx) error {
+		if eb := boltz.GetOrCreatePath(tx, "root", "as", "e1"); eb.HasError() {
+			return eb.GetError()
+		}
+		if err := groups.AddCompoundLink(tx, "e1", a); err != nil {
+			return err
+		}
+		return groups.AddCompoundLink(tx, "e1", b)
+	}); err != nil {
+		return fmt.Errorf("AddCompoundLink of %q and %q: %v", a, b, err)
+	}
+	got, err := read()
+	if err != nil || fmt.Sprint(got) != fmt.Sprint(norm(a, b)) {
+		return fmt.Errorf("after AddCompoundLink of %q and %q the link set decodes to %v (error %v)", a, b, got, err)
+	}
+	if err := db.DB.Update(func(tx *bbolt.Tx) error { return groups.RemoveCompoundLink(tx, "e1", a) }); err != nil {
+		return fmt.Errorf("RemoveCompoundLink of %q: %v", a, err)
+	}
+	want := norm(b)
+	if same {
+		want = nil
+	}
+	got, err = read()
+	if err != nil || fmt.Sprint(got) != fmt.Sprint(want) {
+		return fmt.Errorf("after AddCompoundLink of %q and %q and RemoveCompoundLink of the first the link set decodes to %v (error %v), expected %v", a, b, got, err, want)
+	}
+	return nil
 }
 
 var _ = sort.Strings
